@@ -132,7 +132,7 @@ func init() {
 	register(&Check{
 		ID:    "C01",
 		Level: "model_checking",
-		Rule: "well-formed feeds within k deviations of a 10-file base feed: row count of each table (0-6), every cell over its kind's alphabet (texts: space / comma+quote / non-ASCII / embedded LF / blank lines inside a quoted value / HTML entities / blank; all enum digits; times 00:00:00, 4:05:06, 25:10:05, 47:59:59; decimals 0, 1.5, -73.25, ' 2.5 ', 1e-3, 17-digit values (40.295390375177476, ...), blank; ints 0, -5, 2147483647, blank; dates incl. DST days, leap day, 00010101 and 99991231; 10 agency zones incl. unknown, America/Santiago (DST starts at local midnight; switch day 20240908), names without a slash (Japan, EST5EDT) and zones whose DST switches precede UTC midnight (Sydney, Lord Howe) with their switch days; values starting with '#'; 'the same value as the row above' for text, time, decimal and colour cells; extra members in sub-folders named like supported tables), id spellings (incl. ids that differ in letter case only), x 9 presentation dimensions (column order, unknown column position incl. 70 unknown columns in front, extra files, member order, deflate, BOM, CRLF, trailing newline, full quoting); quick k<=2, plus members of 1.2 - 10 MiB of repetitive text, stored and deflated; plus feeds of 5..257 rows per table x <= 2 presentation deviations; thorough additionally the full presentation product (1440) x k<=1; " +
+		Rule: "well-formed feeds within k deviations of a 10-file base feed: row count of each table (0-6), every cell over its kind's alphabet (texts: space / comma+quote / non-ASCII / embedded LF / blank lines inside a quoted value / HTML entities / text that is not in Unicode NFC / blank; all enum digits; times 00:00:00, 4:05:06, 25:10:05, 47:59:59; decimals 0, 1.5, -73.25, ' 2.5 ', 1e-3, 17-digit values (40.295390375177476, ...), blank; ints 0, -5, 2147483647, blank; dates incl. DST days, leap day, 00010101 and 99991231; 10 agency zones incl. unknown, America/Santiago (DST starts at local midnight; switch day 20240908), names without a slash (Japan, EST5EDT) and zones whose DST switches precede UTC midnight (Sydney, Lord Howe) with their switch days; values starting with '#'; 'the same value as the row above' for text, time, decimal and colour cells; extra members in sub-folders named like supported tables), id spellings (incl. ids that differ in letter case only), x 9 presentation dimensions (column order, unknown column position incl. 70 unknown columns in front, extra files, member order, deflate, BOM, CRLF, trailing newline, full quoting); quick k<=2, plus members of 1.2 - 10 MiB of repetitive text, stored and deflated; plus feeds of 5..257 rows per table x <= 2 presentation deviations; thorough additionally the full presentation product (1440) x k<=1; " +
 			"non-trivial = every distinct archive; oracle = reference interpretation of the tables",
 		Assumptions: []string{"archive/zip and the harness CSV writer are trusted as renderer", "location_type 0 with a parent is a platform, as the library's enum documents", "optional default-bearing fields are written explicitly (blank/absent is C10)"},
 		Scenarios: func(tier string) []*Scenario {
